@@ -130,6 +130,31 @@ theorem prover_linearization_terms_are_the_source (sepR sepL sepF sepV : Nat) (e
    logic_linearization_source sepL e qL, fixed_linearization_source sepF e qF, var_linearization_source sepV e qV,
    perm_linearizer_source e ch zpoly s4poly⟩
 
+/-- **`proof.rs`**: the widget terms are appended in the model's order; the four quotient terms and `r_0` (both
+    verification routes) are the model's. -/
+theorem verify_assembly_is_the_source (k : VKey) (p : ProofM) (e : Evals) (ch : Challenges) (zh l1 pi : Nat) :
+    verify_lin_terms_calls = ["arithmetic", "range", "logic", "fixed_base", "variable_base", "permutation"] ∧
+    (linearizationTerms k p ch zh l1).drop 12
+      = [((quotientScalars zh).getD 0 0, p.tLow), ((quotientScalars zh).getD 1 0, p.tMid),
+         ((quotientScalars zh).getD 2 0, p.tHigh), ((quotientScalars zh).getD 3 0, p.tFourth)] ∧
+    verify_lin_terms (A := F) (z_h_eval := toF zh)
+      = [(toF ((quotientScalars zh).getD 0 0), "self_t_low_comm_0"), (toF ((quotientScalars zh).getD 1 0), "self_t_mid_comm_0"),
+         (toF ((quotientScalars zh).getD 2 0), "self_t_high_comm_0"), (toF ((quotientScalars zh).getD 3 0), "self_t_fourth_comm_0")] ∧
+    verify_r0 (A := F) (alpha := toF ch.alpha) (beta := toF ch.beta) (gamma := toF ch.gamma) (l1_eval := toF l1)
+      (pi_eval := toF pi) (self_evaluations_a_eval := toF e.a) (self_evaluations_b_eval := toF e.b)
+      (self_evaluations_c_eval := toF e.c) (self_evaluations_d_eval := toF e.d)
+      (self_evaluations_s_sigma_1_eval := toF e.s1) (self_evaluations_s_sigma_2_eval := toF e.s2)
+      (self_evaluations_s_sigma_3_eval := toF e.s3) (self_evaluations_z_eval := toF e.z)
+      = toF (r0Eval e ch l1 pi) ∧
+    verify_legacy_r0 (A := F) (alpha := toF ch.alpha) (beta := toF ch.beta) (gamma := toF ch.gamma) (l1_eval := toF l1)
+      (pi_eval := toF pi) (self_evaluations_a_eval := toF e.a) (self_evaluations_b_eval := toF e.b)
+      (self_evaluations_c_eval := toF e.c) (self_evaluations_d_eval := toF e.d)
+      (self_evaluations_s_sigma_1_eval := toF e.s1) (self_evaluations_s_sigma_2_eval := toF e.s2)
+      (self_evaluations_s_sigma_3_eval := toF e.s3) (self_evaluations_z_eval := toF e.z)
+      = toF (r0Eval e ch l1 pi) :=
+  ⟨verify_call_order, linearizationTerms_quotient k p ch zh l1, verify_lin_terms_source zh,
+   (verify_r0_source e ch l1 pi).1, (verify_r0_source e ch l1 pi).2⟩
+
 /-- non-vacuity: the translated range verifier scalar on a concrete row (c − 4d = 5 is not a quad) is non-zero -/
 example : range_verifier (A := F) (evaluations_a_eval := 0) (evaluations_b_eval := 0) (evaluations_c_eval := 5)
     (evaluations_d_eval := 0) (evaluations_d_w_eval := 0) (range_separation_challenge := 1)
